@@ -44,7 +44,7 @@ UID_RE = re.compile(r"^\{[0-9a-fA-F]{8}-[0-9a-fA-F]{4}-[0-9a-fA-F]{4}-[0-9a-fA-F
 #              table does not know: judged with the common clause only
 MANDATORY_ATTRS = {"ID", "Name"}
 OPTIONAL_ATTRS = {
-    "project": {"Contributors", "GA Version"},
+    "project": {"Contributors", "GA Version", "Distance unit"},  # marked optional / not mentioned / "(default) metres"
     "entity": {
         "Allow delete", "Allow move", "Allow rename", "Clipping IDs", "Public", "Visible",  # documented optional / default
         "Partially hidden", "Modifiable", "Last focus", "Cost", "End of hole", "Planning", "Dip",  # not mentioned
@@ -206,7 +206,12 @@ def enumerate_faults(b: bytes, snap: dict) -> list:
         proj = f[list(f)[0]]
         # ---- project ------------------------------------------------------
         for a in sorted(proj.attrs):
-            add("attr", [], a, "project", f"project.{a}", attr_cls("project", a))
+            if a == "Version":
+                # "Version of specification used by this file": says how every node of the
+                # file is to be read, hence describes all of them
+                add("attr", [], a, "project", f"project.{a}", "other", e=all_e, t=all_t, p=all_p)
+            else:
+                add("attr", [], a, "project", f"project.{a}", attr_cls("project", a))
         for k in sorted(proj):
             if k == "Root":
                 root_u = uid_of([key for key in proj["Groups"] if addr(proj["Groups"][key]) == addr(proj["Root"])][0])
